@@ -386,7 +386,7 @@ def main(argv=None):
             os.close(fd)
             try:
                 cmd = [sys.executable, '-O', '-m', 'rxverif.run', pid, '--tier', tier, '--shard', '0/1', '--out', tmp,
-                       '--budget', str(max(4.0, min(8.0, budget / 8)))]
+                       '--budget', str(max(3.0, min(5.0, budget / 15)))]
                 r = subprocess.run(cmd, cwd=common.VERIF, capture_output=True, text=True, timeout=budget + 120,
                                    env=dict(os.environ, PYTHONHASHSEED='0', VERIF_NO_COVERAGE='1'))
                 if r.returncode == 0 and os.path.getsize(tmp) > 0:
